@@ -51,6 +51,7 @@ var c19Pool = []string{
 	`$v`, `$arr[*]`, `$obj.b[last]`, `$.i == $v`, `$arr[2].a + $v`, `$.s starts with $w`, `$missing`, `$.a[$missing]`, `"lit"`, `(1 + 2) * 3`, `null.type()`, `true`,
 	`strict $.a`, `strict $.nokey`, `strict $.a[5]`, `strict $.list[*].x`, `strict $.list[*] ? (@.x > 1)`, `strict exists($.a)`, `strict $.a.size() == 3`, `strict -$.s`, `strict $.a[0 to last].type()`,
 	`$.aa[0 to 1][*]`, `$.aa[0,2][*]`, `$.aa[0,1][*]`, `$.aa[2,0][*]`, `$.aa[*][*]`, `$.aa[*][0 to last]`, `$.aa[last][*]`, `$.aa[0,1,0][*]`, `$.**[*]`, `$.aa[*] ? (@.size() > 1)[*]`,
+	`$."\u0061"`, `$.a\u0061[0]`, `$.s == "\u0061bc\u{31}"`, `$.list[*] ? (@.y starts with "\u0041\u0062")`, `"\ud83d\ude04\u00e9\u4e2d".size()`, `$"\u0076" + $.\u0069`, `$.s like_regex "^\u0061.c"`,
 	`strict $.big[*].x`, `strict $.big[*].x ? (@ > 100)`, `strict $.big[0 to 7].x ? (@ > 100)`, `strict $.a[*] ? (@ > 100)`, `strict $.big[*].x.double()`, `$.big[*].x ? (@ > 6)`, `$vf + $vi`, `$vn.string()`, `$arr[0] + $vn`,
 	`$.i == 1`, `$.a[*] > 1`, `exists($.a ? (@ > 2))`, `($.i == "x") is unknown`, `$.i == 1 && $.f > 1`, `!($.s == "x")`, `$.x.y.z`, `$.a.b.c`, `$.a[*].foo`, `$.list[1 to last].x`, `$.list[*].t.date().string()`,
 }
